@@ -11,7 +11,7 @@ NA = {
  "C16": "pure string function judged by a deterministic external shell",
  "C17": "pure string function",
 }
-PENDING = ["C18", "C20"]
+PENDING = ["C20"]
 SIM = "deterministic simulation: seeded search over schedules and faults on the mechanically rewritten real code, oracle over the recorded history, minimised replay file"
 CHECKS = {
  "C06": dict(world="laneworld", ref="5.1", tech=SIM + "; exactly-once ledger per task object, bounded liveness at simulator quiescence",
@@ -36,6 +36,8 @@ CHECKS = {
    text="Seeded request histories over one Mux (matching, partially matching, unmatched, panicking handlers) from 1..4 concurrent clients, with the simulator choosing which pooled Store each request gets and further routes registered between batches; everything a handler can observe through Store (route, every parameter name anywhere in the table, RouteParamAny, initial status) must equal what the same request observes on a fresh Mux with the routes registered at that moment; IDs must be constant within a request and pairwise distinct; the race detector watches Store/Params/ResponseWriter fields."),
  "C15": dict(world="httpworld", ref="5.3", tech=SIM + "; generated handler behaviours and failing client connection, log records paired by request ID against what the simulated client received",
    text="1..6 concurrent clients send requests through Mux + Logger.Relay over each log handler; per request the handler behaviour is generated (status, body, panic before/after the status/after a partial body, eight kinds of panic value including nil-like ones, client connection failing); oracle per request: no panic leaves ServeHTTP, 500 exactly when the panic preceded any status, one REQ_BEG and one REQ_END with the request's method/URI/IP/ID and the code the client received, one Error record with the panic value iff it panicked."),
+ "C18": dict(world="fsworld", ref="5.6", cat="fault_enumeration", tech="deterministic simulation with fault injection over a simulated file system: every aliasing/layout scenario x every single-fault position of its recorded syscall trace enumerated completely, seeded multi-fault sampling, content-snapshot oracle, fault-free scenarios cross-run on the real file system",
+   text="The os import of util/osutil/file.go is redirected to an in-memory POSIX-like file system with per-call fault plans. All 588 scenarios (operation x 7 sizes x 3 source kinds x 14 destination layouts incl. same path, ./ and dir/../ spellings, symlink, hard link, other mount) are run fault-free and then once per (call of the recorded trace, applicable errno, partial-write amount): the single-fault product is exhaustive; two- and three-fault plans are sampled by seed. Oracle: content snapshot taken before the call (nil => destination holds the source's bytes and, for CopyFile, so does the source; error => source intact; MoveFile removes the source only after the destination is complete)."),
 }
 NOTE = "Trusted base: the simgo rewriter (chan/select/go -> simrt calls, import shims, in-place access instrumentation) preserves the semantics of the rewritten package; simrt's primitives conform to the Go spec and memory model (conformance suite with exact outcome sets and a two-sided race-detector self-test run in setup_cmd); the harness oracles. Sampling over bounded configurations, not proof."
 m = {
